@@ -1,5 +1,5 @@
 (* C11 -- lemmas about Model/Coords.v, and the tactic used by the generated correspondence lemmas. *)
-From Coq Require Import Reals Lra Psatz Field List Bool.
+From Coq Require Import Reals Lra Psatz Field List Bool Nsatz.
 From VP Require Import Base.Atan2 Model.Coords.
 Import ListNotations.
 Local Open Scope R_scope.
@@ -92,8 +92,8 @@ Ltac vp_split3 :=
 
 Ltac vp_corr :=
   intros;
-  cbv beta iota delta [cart_to_cyl cart_to_sph cyl_to_cart sph_to_cart transformation rebase pad nth to_cart
-                       dot magnitude scale smul apply_field field_rebase];
+  cbv beta iota delta [cart_to_cyl cart_to_sph cyl_to_cart sph_to_cart transformation rebase pad List.nth to_cart
+                       dot magnitude scale smul apply_field field_rebase to_parent from_parent curv_rotated_to_parent];
   vp_split3; vp_corr1.
 
 Lemma vp_some_inj {A : Type} (a b : A) : Some a = Some b -> a = b.
@@ -413,3 +413,77 @@ Proof. cbv [sph_to_cart]. rewrite cos_0, sin_0. reflexivity. Qed.
 Example field_example :
   exists g, field_rebase Cart Cyl (fun x y z => x + z) = Some g /\ g 2 0 5 = 2 * 1 + 5.
 Proof. eexists. split; [reflexivity|]. cbv [apply_field cyl_to_cart]. rewrite cos_0. reflexivity. Qed.
+
+(* ================================================================================================== *)
+(* rotated frames                                                                                       *)
+(* ================================================================================================== *)
+
+Lemma sq_trig' (t : R) : sin t * sin t + cos t * cos t = 1.
+Proof. pose proof (sin2_cos2 t) as E. unfold Rsqr in E. exact E. Qed.
+
+Lemma from_to_parent (ax : axis) (al : R) (p : V3) : from_parent ax al (to_parent ax al p) = p.
+Proof.
+  destruct p as [[x y] z]. pose proof (sq_trig' al) as E.
+  destruct ax; cbv [from_parent to_parent]; rewrite cos_neg, sin_neg;
+    set (c := cos al) in *; set (sn := sin al) in *; clearbody c sn; vp_split3; try reflexivity; solve [nsatz].
+Qed.
+
+Lemma to_from_parent (ax : axis) (al : R) (p : V3) : to_parent ax al (from_parent ax al p) = p.
+Proof.
+  destruct p as [[x y] z]. pose proof (sq_trig' al) as E.
+  destruct ax; cbv [from_parent to_parent]; rewrite cos_neg, sin_neg;
+    set (c := cos al) in *; set (sn := sin al) in *; clearbody c sn; vp_split3; try reflexivity; solve [nsatz].
+Qed.
+
+Lemma to_parent_dot (ax : axis) (al : R) (u v : V3) :
+  dot Cart (to_parent ax al u) (to_parent ax al v) = dot Cart u v.
+Proof.
+  destruct u as [[x1 y1] z1], v as [[x2 y2] z2]. pose proof (sq_trig' al) as E.
+  destruct ax; cbv [dot to_parent]; set (c := cos al) in *; set (sn := sin al) in *; clearbody c sn; solve [nsatz].
+Qed.
+
+(* dot products / magnitudes computed in a curvilinear child of a rotated frame equal those of the vectors
+   re-expressed in the parent Cartesian frame *)
+Lemma dot_curv_rotated (s : sys) (ax : axis) (al : R) (u v : V3) :
+  dot s u v = dot Cart (curv_rotated_to_parent s ax al u) (curv_rotated_to_parent s ax al v).
+Proof. unfold curv_rotated_to_parent. rewrite to_parent_dot. apply dot_is_cart_dot. Qed.
+
+(* there and back across type change and rotation *)
+Lemma curv_rotated_roundtrip (s : sys) (ax : axis) (al : R) (p q : V3) :
+  in_domain s p -> in_domain s q ->
+  from_parent ax al (curv_rotated_to_parent s ax al p) = to_cart s q -> p = q.
+Proof.
+  intros Hp Hq E. unfold curv_rotated_to_parent in E. rewrite from_to_parent in E.
+  apply (to_cart_injective s); assumption.
+Qed.
+
+(* ================================================================================================== *)
+(* points                                                                                               *)
+(* ================================================================================================== *)
+
+Lemma pget_nil {A : Type} (zero : A) (i : nat) : pget zero [] i = zero.
+Proof. unfold pget. destruct i; reflexivity. Qed.
+
+Lemma pget_pset_same {A : Type} (zero : A) (l : list A) (i : nat) (v : A) : pget zero (pset zero l i v) i = v.
+Proof.
+  revert l. induction i as [| i IH]; intros l; destruct l as [| h t]; cbn; try reflexivity; apply IH.
+Qed.
+
+Lemma pget_pset_other {A : Type} (zero : A) (l : list A) (i j : nat) (v : A) :
+  i <> j -> pget zero (pset zero l i v) j = pget zero l j.
+Proof.
+  revert l j. induction i as [| i IH]; intros l j H; destruct l as [| h t]; destruct j as [| j]; cbn;
+    try reflexivity; try (exfalso; apply H; reflexivity).
+  - destruct j; reflexivity.
+  - unfold pget in IH. rewrite (IH [] j) by (intro; apply H; f_equal; assumption). destruct j; reflexivity.
+  - apply (IH t j). intro; apply H; f_equal; assumption.
+Qed.
+
+Lemma pset_length {A : Type} (zero : A) (l : list A) (i : nat) (v : A) :
+  length (pset zero l i v) = Nat.max (length l) (S i).
+Proof.
+  revert l. induction i as [| i IH]; intros l; destruct l as [| h t]; cbn [pset length]; try reflexivity.
+  - destruct (length t); reflexivity.
+  - rewrite (IH []). cbn [length]. reflexivity.
+  - rewrite (IH t). reflexivity.
+Qed.
